@@ -222,7 +222,13 @@ func (q *zz35Q) drainAndCheck() {
 		e, has := q.recv.Get(c)
 		verifrt.Observe("recv_has", has)
 		if want == 0 {
-			verifrt.Assert("C35.T2.cancelled-want-left-active", !has)
+			if !q.supportsHave && q.peerWant[i] == 1 {
+				// the client's last word for this CID is a targeted want-have, which a peer without HAVE
+				// support is never sent: such a peer must not be left holding an older want either
+				verifrt.Assert("C35.T2.cancelled-want-left-active.want-have-to-peer-without-have-support", !has)
+			} else {
+				verifrt.Assert("C35.T2.cancelled-want-left-active", !has)
+			}
 			continue
 		}
 		n++
